@@ -491,7 +491,7 @@ class Model:
     def run(self):
         f = self.f
         init = {"match": U, "opt": U, "multi": U, "nextm": U, "run": U, "Einb": U, "Linb": U, "cred": frozenset(), "prog": False,
-                "Ewr": False, "Lwr": False, "peek": U, "tail": False, "in_loop": False, "run_at_start": U}
+                "Ewr": False, "Lwr": False, "peek": U, "tail": False, "in_loop": False, "run_at_start": U, "rne": U}
         work = [(0, self._freeze(init))]
         seen = set()
         while work:
@@ -576,6 +576,8 @@ class Model:
                       "the line cursor advances although the current line was not matched-and-recorded (match=%s, credits=%s, run=%s): an output line disappears from the result"
                       % (s["match"], sorted(cred), s["run"]))
             s.update({"Lwr": True, "prog": True, "Linb": U, "nextm": U})
+            if s["run"] == "open":
+                s["rne"] = T
         elif kind == "L_jump":
             ok = "unexpected_jump" in cred and s["match"] == F
             self.need("R1.3", "L=X@%s" % self._site(bb), ok, where, "the line cursor jumps only after the skipped lines L..X were recorded as unexpected (and the current pair did not match)",
@@ -590,6 +592,10 @@ class Model:
                       "the expectation cursor advances although the expectation was neither recorded nor optional, or its open multiline run was not recorded "
                       "(credits=%s, optional=%s, run=%s): a test can pass on output its expectations do not describe" % (sorted(cred), s["opt"], s["run"]))
             if s["match"] == T and s["multi"] == T and not tail:
+                self.need("R3.2", "yield-after-first-line@%s" % self._site(bb), s["opt"] == T or s["rne"] == T, where,
+                          "a non-optional multiline expectation yields only after it consumed at least one line",
+                          "a multiline expectation not known to be optional can yield its *first* line to the next expectation (run-non-empty=%s): a `+` expectation ends "
+                          "up with zero lines and the rest of its lines are reported as unexpected" % s["rne"])
                 self.need("R3.2", "yield@%s" % self._site(bb), s["nextm"] == T, where, "a matching multiline expectation yields only when the next expectation matches the current line",
                           "a multiline expectation that still matches is abandoned although the next expectation does not match the current line (next-matches=%s)" % s["nextm"])
             s.update({"Ewr": True, "prog": True, "Einb": U, "opt": U, "multi": U, "nextm": U})
@@ -606,8 +612,10 @@ class Model:
             self.need("R1.1", "M=Some@%s" % self._site(bb), ok, where, "a multiline run is opened at the current line, only when it matched a multiline expectation and no run is open",
                       "a run is opened with start=%s under match=%s multiline=%s run=%s" % (ev[2], s["match"], s["multi"], s["run"]))
             s["run"] = "open"
+            s["rne"] = F
         elif kind == "M_close":
             s["run"] = "closed"
+            s["rne"] = U
         elif kind == "M_other":
             self.need("R1.1", "M-write@%s" % self._site(bb), False, where, "", "the run marker is assigned an unrecognised value")
             s["run"] = U
@@ -629,6 +637,10 @@ class Model:
                               "a ranged Matched record covers exactly the open run M..L", "a ranged Matched record covers %s..%s (to_output_list=%s)" % (lp[1], lp[2], lp[3]))
                     self.need("R1.4", "matched-range-guard@%s" % site, s["run"] == "open" and not s["Ewr"], where,
                               "a ranged Matched record is pushed only while a multiline run is open", "ranged Matched pushed with run=%s" % s["run"])
+                    self.need("R1.4", "matched-range-nonempty@%s" % site, s["rne"] == T or s["opt"] == T, where,
+                              "a ranged Matched record covers at least one line (the run was opened in an earlier iteration and the line cursor advanced since), unless the expectation is optional",
+                              "a ranged Matched record M..L can be pushed in the very iteration that opened the run (M == L, zero lines) for an expectation not known to be "
+                              "optional: a `+` expectation is recorded as matched without any line (run-non-empty=%s, optional=%s)" % (s["rne"], s["opt"]))
                     cred.add("matched_range")
                 else:
                     self.need("R2.1", "matched-payload@%s" % site, False, where, "", "unrecognised `lines` payload of a Matched record: %s" % (lp[1],))
